@@ -75,6 +75,7 @@ def run(cfg, faults=None, keep_events=True, workdir=None, kill_at=None):
         if cfg["part_present"]:
             with open(part, "wb") as f:
                 f.write(STALE)
+            os.chmod(part, 0o604)      # a mode no rule of the property produces: reuse of this inode shows in the result
         chunks = chunks_for(cfg["body"], cfg["text_mode"])
         new = b"".join(c.encode("utf-8") if isinstance(c, str) else c for c in chunks)
 
